@@ -139,6 +139,12 @@ def step (st : St) (args : List String) : St × String :=
         (st, s!"spec={showOpt (MemAccess.specAccess (base % 2^32) (off % 2^32) 16 len)} interp={showOpt ((MemAccess.v128Store b o l).map (·.toNat))}")
       else (st, "bad-op")
     | _, _, _, _ => (st, "bad-op")
+  | ["init", n, src, dst, len, dataLen] =>
+    match parseNat n, parseNat src, parseNat dst, parseNat len, parseNat dataLen with
+    | some n, some src, some dst, some len, some dataLen =>
+      let spec := decide (dataLen < src % 2^32 + n % 2^32 ∨ len < dst % 2^32 + n % 2^32)
+      (st, s!"spec={b2s spec} interp={b2s (MemAccess.initTraps (BitVec.ofNat 32 n) (BitVec.ofNat 32 src) (BitVec.ofNat 32 dst) (BitVec.ofNat 64 len) (BitVec.ofNat 64 dataLen))}")
+    | _, _, _, _, _ => (st, "bad-op")
   | ["fill", n, dst, len] =>
     match parseNat n, parseNat dst, parseNat len with
     | some n, some dst, some len =>
